@@ -303,3 +303,13 @@ impl<T: Eq> FromIterator<T> for HashSet<T> {
         m
     }
 }
+
+// ---------------- Error: sustituto trivial de anyhow::Error (sin backtrace ni mensaje)
+#[derive(Debug, Clone, Copy, PartialEq, Eq)]
+pub struct Error;
+#[macro_export]
+macro_rules! format_err {
+    ($($arg:tt)*) => {
+        $crate::kani_models::Error
+    };
+}
